@@ -26,6 +26,8 @@ import (
 	"net/url"
 	"os"
 	"path/filepath"
+	"runtime/debug"
+	"runtime/pprof"
 	"sort"
 	"strings"
 	"sync/atomic"
@@ -531,9 +533,12 @@ func (w *httpWorld) do(q httpReq) (int, *panicInfo, error) {
 func (c *pctx) evalHTTP(a *acc, w *httpWorld, q httpReq, pathIdx, methodIdx int) {
 	a.inputs++
 	a.execs++
-	c.prog.SetRaw('J', []byte(fmt.Sprintf(`{"sub":%q,"method":%q,"template":%q,"path":%q,"class":%q,"cred":%q,"authorization":%q,"content_type":%q,"content_type_value":%q,"body":%q,"precondition":%q,"kind":%q}`,
-		q.Sub, q.Method, q.Template, head(q.Path, 400), q.Class, q.Cred, q.Auth, q.Ctype, q.CtypeVal, q.Body, q.Precond, q.Kind)))
+	c.prog.SetRaw('H', []byte(q.Sub), []byte(q.Method), []byte(q.Template), []byte(head(q.Path, 400)), []byte(q.Class), []byte(q.Cred),
+		[]byte(q.Auth), []byte(q.Ctype), []byte(q.CtypeVal), []byte(q.Body), []byte(q.Precond), []byte(q.Kind))
 	code, pi, err := w.do(q)
+	if dumpFile != nil {
+		fmt.Fprintf(dumpFile, "%d\t%s\t%s\t%s\t%s\t%s\t%s\t%s\n", code, q.Method, q.Template, head(q.Path, 60), q.Cred, q.Ctype, q.Body, q.Precond)
+	}
 	rank := fmt.Sprintf("%04d%s|%s|%s|%s|%s", len(q.Path), q.Path, q.Cred, q.Ctype, q.Body, q.Precond)
 	switch {
 	case err != nil:
@@ -556,6 +561,15 @@ func (c *pctx) evalHTTP(a *acc, w *httpWorld, q httpReq, pathIdx, methodIdx int)
 	}
 }
 
+// dumpFile (debugging aid): C12_HTTP_DUMP=<file> lists every request and status.
+var dumpFile = func() *os.File {
+	if p := os.Getenv("C12_HTTP_DUMP"); p != "" {
+		f, _ := os.OpenFile(fmt.Sprintf("%s.%d", p, os.Getpid()), os.O_CREATE|os.O_WRONLY|os.O_TRUNC, 0644)
+		return f
+	}
+	return nil
+}()
+
 func orNone(s string) string {
 	if s == "" {
 		return "no precondition"
@@ -565,6 +579,12 @@ func orNone(s string) string {
 
 func runHTTPShard(res *core.Result) {
 	o := core.Opts()
+	debug.SetGCPercent(800) // request bodies of 1.1 MB make a lot of short-lived garbage
+	if pf := os.Getenv("C12_CPUPROFILE"); pf != "" {
+		f, _ := os.Create(pf)
+		pprof.StartCPUProfile(f)
+		defer pprof.StopCPUProfile()
+	}
 	c := newPctx(res, httpPart)
 	if core.Want("http-requests") {
 		runHTTPRequests(c, o)
